@@ -140,15 +140,26 @@ class Env:
         data_cols = list(TYPES_INPUT_VARIABLES) if data_cols is None else list(data_cols)
         key = (tuple(targets), tuple(data_cols))
         if self._universe is None or self._universe[0] != key:
+            self.missing_targets = []
             with warnings.catch_warnings():
                 warnings.simplefilter("ignore")
-                fno, fo = load_and_check_functions(
-                    functions_raw=self.functions,
-                    targets=targets,
-                    data_cols=data_cols,
-                    aggregate_by_group_specs={},
-                    aggregate_by_p_id_specs={},
-                )
+                for _ in range(3):
+                    try:
+                        fno, fo = load_and_check_functions(
+                            functions_raw=self.functions,
+                            targets=targets,
+                            data_cols=data_cols,
+                            aggregate_by_group_specs={},
+                            aggregate_by_p_id_specs={},
+                        )
+                        break
+                    except ValueError as ex:
+                        if "no corresponding function" not in str(ex):
+                            raise
+                        miss = re.findall(r'"([^"\n]+)"', str(ex))
+                        self.missing_targets.extend(miss)
+                        targets = [t for t in targets if t not in miss]
+            self.targets = targets
             self._universe = (key, fno, fo)
         return self._universe[1], self._universe[2]
 
@@ -158,6 +169,7 @@ class Env:
 
         targets = sorted(set(DEFAULT_TARGETS if targets is None else targets))
         fno, fo = self.universe(targets, data_cols)
+        targets = [t for t in targets if t not in self.missing_targets]
         key = (tuple(targets), tuple(data_cols) if data_cols is not None else None)
         if key not in self._dag:
             with warnings.catch_warnings():
